@@ -24,6 +24,7 @@ PINNED = [
     "pinned_cleanup_removes_own_placeholder", "compile_error_leaves_nothing",
     "reimport_after_failure_runs_again", "export_visibility", "last_export_wins", "reassign_not_export",
     "resolution_order", "non_local_order", "newest_wildcard_wins", "top_level_export_final",
+    "exports_track_final_values", "compound_assign_exports",
 ]
 
 # ---------------------------------------------------------------------------
@@ -77,6 +78,8 @@ def item_src(it):
         return f"export {nm(it[1])} = {expr_src(it[2])}"
     if k == "assign":
         return f"{nm(it[1])} = {expr_src(it[2])}"
+    if k == "aop":
+        return f"{nm(it[1])} += {expr_src(it[2])}"
     if k == "show":
         return f"show {expr_src(it[1])}"
     if k == "fail":
@@ -126,6 +129,8 @@ def item_coq(it):
         return f"Export {it[1]} {expr_coq(it[2])}"
     if k == "assign":
         return f"Assign {it[1]} {expr_coq(it[2])}"
+    if k == "aop":
+        return f"AssignOp {it[1]} {expr_coq(it[2])}"
     if k == "show":
         return f"Show {expr_coq(it[1])}"
     if k == "fail":
@@ -365,6 +370,9 @@ def scripted_cases():
                      ("run", force, R, [("from", 1, [(10, 12), (11, None)]), ("show", ("var", 12))]),
                      ("run", force, R, [("assign", 10, ("lit", 3)), ("all", 1), ("show", ("var", 10)), ("show", ("var", 11))]),
                      ("run", force, R, [("show", ("var", 10)), ("show", ("var", 11))]),
+                     ("run", force, R, [("assign", 12, ("lit", 1)), ("aop", 12, ("lit", 1)), ("aop", 13, ("lit", 4)),
+                                        ("show", ("var", 12)), ("show", ("var", 13))]),
+                     ("run", force, R, [("show", ("var", 12)), ("show", ("var", 13)), ("aop", 12, ("var", 13))]),
                      ("clear",),
                      ("run", False, R, [("try", 1, 11, 500), ("show", ("var", 11))]),
                      ("run", force, R, [("from", 1, [(10, None), (13, None)])])]
@@ -426,6 +434,233 @@ def raw_cases():
     return cases
 
 
+# ---------------------------------------------------------------------------
+# "repl-mode chunks": sequences of 1-3 chunks compiled with export_top_level_ids(true) on one runtime,
+# built from every top-level assignment form; a small interpreter gives the expected exports map.
+
+RTOP = ["xa", "xb", "xc", "xd"]
+RFN = ["wa", "wb"]
+ROPS = ["+", "-", "*", "%"]
+
+
+def rem(a, b):
+    r = abs(a) % b
+    return -r if a < 0 else r
+
+
+def r_expr(rng, defined, loopvars):
+    pool = [d for d in defined] + loopvars
+    k = rng.below(5)
+    if k < 2 or not pool:
+        return ("lit", rng.below(9))
+    if k < 3:
+        return ("var", rng.choice(pool))
+    return ("add", rng.choice(pool), 1 + rng.below(5))
+
+
+def r_block(rng, prior, sure, maybe, depth, loopvars, n, forms):
+    """-> (stmts, sure', maybe').  Compile-order bookkeeping of one chunk: `prior` = ids surely exported by
+    earlier chunks, `sure` = ids assigned on every path so far in this chunk, `maybe` = ids assigned somewhere
+    so far in this chunk.  An id is READ only when the read is well defined: it is a local that was surely
+    written, or it is not a local of this chunk (yet) and an earlier chunk exported it.  (An id that an earlier
+    chunk exported and that this chunk assigns only in a branch not taken reads as null afterwards: the local
+    shadows the export -- class C18d, kept out of this family.)"""
+    out = []
+    sure, maybe = set(sure), set(maybe)
+
+    def readable():
+        return sorted(sure | (set(prior) - maybe))
+
+    for _ in range(n):
+        form = rng.choice(forms)
+        rd = readable()
+        if form == "op" and not rd:
+            form = "set"
+        if form == "set":
+            x = rng.choice(RTOP)
+            out.append(("set", x, r_expr(rng, rd, loopvars)))
+            sure.add(x)
+            maybe.add(x)
+        elif form == "op":
+            x = rng.choice(rd)
+            op = rng.choice(ROPS)
+            e = ("lit", 2 + rng.below(4)) if op in "*%" else r_expr(rng, rd, loopvars)
+            out.append(("op", x, op, e))
+        elif form in ("multi", "unpack"):
+            a, b = rng.choice(RTOP), rng.choice(RTOP)
+            if a == b:
+                b = RTOP[(RTOP.index(a) + 1) % len(RTOP)]
+            out.append((form, [a, b], [r_expr(rng, rd, loopvars), r_expr(rng, rd, loopvars)]))
+            sure |= {a, b}
+            maybe |= {a, b}
+        elif form == "if" and depth < 2 and rd:
+            c = (rng.choice(rd), rng.below(9))
+            t, st, mt = r_block(rng, prior, sure, maybe, depth + 1, loopvars, 1 + rng.below(2), forms)
+            if rng.chance(1, 2):
+                e, se, me = r_block(rng, prior, sure, mt, depth + 1, loopvars, 1 + rng.below(2), forms)
+                out.append(("if", c, t, e))
+                sure |= (st & se)
+                maybe |= me
+            else:
+                out.append(("if", c, t, None))
+                maybe |= mt
+        elif form == "match" and depth < 2 and rd:
+            x = rng.choice(rd)
+            t, st, mt = r_block(rng, prior, sure, maybe, depth + 1, loopvars, 1, forms)
+            e, se, me = r_block(rng, prior, sure, mt, depth + 1, loopvars, 1, forms)
+            out.append(("match", x, rng.below(9), t, e))
+            sure |= (st & se)
+            maybe |= me
+        elif form == "for" and depth < 2:
+            lv = "ij"[depth]
+            b, sb, mb = r_block(rng, prior, sure, maybe, depth + 1, loopvars + [lv], 1 + rng.below(2), forms)
+            out.append(("for", lv, 1 + rng.below(3), b))
+            sure |= sb
+            maybe |= mb
+        elif form == "fn" and depth == 0:
+            w = rng.choice(RFN)
+            out.append(("fn", w, rng.below(9), rng.choice(ROPS[:3]), 1 + rng.below(4), rng.choice(RTOP)))
+            sure.add(out[-1][5])
+            maybe.add(out[-1][5])
+        else:
+            x = rng.choice(RTOP)
+            out.append(("set", x, ("lit", rng.below(9))))
+            sure.add(x)
+            maybe.add(x)
+    return out, sure, maybe
+
+
+def r_esrc(e):
+    if e[0] == "lit":
+        return str(e[1])
+    if e[0] == "var":
+        return e[1]
+    return f"{e[1]} + {e[2]}"
+
+
+def r_src(stmts, ind=""):
+    L = []
+    for st in stmts:
+        k = st[0]
+        if k == "set":
+            L.append(f"{ind}{st[1]} = {r_esrc(st[2])}")
+        elif k == "op":
+            L.append(f"{ind}{st[1]} {st[2]}= {r_esrc(st[3])}")
+        elif k == "multi":
+            L.append(f"{ind}{st[1][0]}, {st[1][1]} = {r_esrc(st[2][0])}, {r_esrc(st[2][1])}")
+        elif k == "unpack":
+            L.append(f"{ind}{st[1][0]}, {st[1][1]} = ({r_esrc(st[2][0])}, {r_esrc(st[2][1])})")
+        elif k == "if":
+            L.append(f"{ind}if {st[1][0]} > {st[1][1]}")
+            L += r_src(st[2], ind + "  ")
+            if st[3] is not None:
+                L.append(f"{ind}else")
+                L += r_src(st[3], ind + "  ")
+        elif k == "match":
+            L.append(f"{ind}match {st[1]}")
+            L.append(f"{ind}  {st[2]} then")
+            L += r_src(st[3], ind + "    ")
+            L.append(f"{ind}  else")
+            L += r_src(st[4], ind + "    ")
+        elif k == "for":
+            L.append(f"{ind}for {st[1]} in 1..={st[2]}")
+            L += r_src(st[3], ind + "  ")
+        elif k == "fn":
+            _, w, init, op, n, res = st
+            L += [f"{ind}f = ||", f"{ind}  {w} = {init}", f"{ind}  {w} {op}= {n}", f"{ind}  {w}", f"{ind}{res} = f()"]
+    return L
+
+
+def r_apply(op, a, b):
+    return a + b if op == "+" else a - b if op == "-" else a * b if op == "*" else rem(a, b)
+
+
+def r_eval(e, env, lv):
+    if e[0] == "lit":
+        return e[1]
+    v = lv[e[1]] if e[1] in lv else env[e[1]]
+    return v if e[0] == "var" else v + e[2]
+
+
+def r_run(stmts, env, lv):
+    """the reference semantics of the assignment forms: env is the exports map (= the top-level ids)"""
+    for st in stmts:
+        k = st[0]
+        if k == "set":
+            env[st[1]] = r_eval(st[2], env, lv)
+        elif k == "op":
+            env[st[1]] = r_apply(st[2], env[st[1]], r_eval(st[3], env, lv))
+        elif k in ("multi", "unpack"):
+            vs = [r_eval(e, env, lv) for e in st[2]]
+            env[st[1][0]] = vs[0]
+            env[st[1][1]] = vs[1]
+        elif k == "if":
+            if env[st[1][0]] > st[1][1]:
+                r_run(st[2], env, lv)
+            elif st[3] is not None:
+                r_run(st[3], env, lv)
+        elif k == "match":
+            r_run(st[3] if env[st[1]] == st[2] else st[4], env, lv)
+        elif k == "for":
+            for i in range(1, st[2] + 1):
+                lv2 = dict(lv)
+                lv2[st[1]] = i
+                r_run(st[3], env, lv2)
+        elif k == "fn":
+            _, w, init, op, n, res = st
+            env["f"] = "?"
+            env[res] = r_apply(op, init, n)       # w stays inside the function
+
+
+REPL_FORM_SETS = [["set", "op"], ["set", "op", "multi", "unpack"], ["set", "op", "if", "match"], ["set", "op", "for"],
+                  ["set", "op", "fn"], ["set", "op", "multi", "unpack", "if", "match", "for", "fn"]]
+
+
+def repl_case(chunks, origin):
+    """chunks: list of statement lists -> a case whose host steps are the chunks (export_top_level_ids) followed
+    by a probe chunk that reads every defined id the way the next REPL entry would"""
+    env = {}
+    steps, expect = [], []
+    for ch in chunks:
+        r_run(ch, env, {})
+        steps.append(("run", True, (), [("raw", "\n".join(r_src(ch)) + "\n", {})]))
+        expect.append({"exports": dict(env), "out": None})
+    ids = [x for x in RTOP if x in env]
+    if ids:
+        steps.append(("run", True, (), [("raw", "\n".join(f"show {x}" for x in ids) + "\n", {})]))
+        expect.append({"exports": dict(env), "out": [f"v:i{env[x]}" for x in ids]})
+    return (origin, [], [(True, steps)], {"clean": False, "raw": True, "repl": expect})
+
+
+def repl_cases(rng, n_random):
+    S = lambda x, n: ("set", x, ("lit", n))
+    fixed = [
+        [[S("xa", 1), ("op", "xa", "+", ("lit", 1))]],                                     # same chunk, compound
+        [[S("xa", 1)], [("op", "xa", "+", ("lit", 1))]],                                   # later chunk, compound
+        [[S("xa", 0), ("for", "i", 4, [("op", "xa", "+", ("var", "i"))])]],                # accumulator in a loop
+        [[S("xa", 10), ("op", "xa", "-", ("lit", 3)), ("op", "xa", "*", ("lit", 2)), ("op", "xa", "%", ("lit", 5))]],
+        [[("for", "i", 3, [S("xb", 0), ("op", "xb", "+", ("add", "i", 10))])]],            # first assigned inside the loop
+        [[S("xa", 5), ("if", ("xa", 3), [("op", "xa", "*", ("lit", 2))], [("op", "xa", "-", ("lit", 1))])]],
+        [[S("xa", 5), ("match", "xa", 5, [("op", "xa", "+", ("lit", 1))], [S("xb", 2)])]],
+        [[("multi", ["xa", "xb"], [("lit", 1), ("lit", 2)]), ("multi", ["xa", "xb"], [("var", "xb"), ("var", "xa")]),
+          ("op", "xb", "+", ("var", "xa"))]],
+        [[("unpack", ["xc", "xd"], [("lit", 5), ("lit", 6)]), ("op", "xd", "*", ("lit", 3))], [("op", "xc", "-", ("var", "xd"))]],
+        [[("fn", "wa", 5, "+", 1, "xa"), ("op", "xa", "+", ("lit", 1))], [S("xb", 1)]],
+        [[S("xa", 1), S("xa", 2)], [S("xb", 7), ("set", "xa", ("add", "xb", 1))], [("op", "xa", "*", ("lit", 3))]],
+    ]
+    cases = [repl_case(ch, "repl-chunks/fixed") for ch in fixed]
+    for _ in range(n_random):
+        forms = rng.choice(REPL_FORM_SETS)
+        chunks = []
+        prior = set()
+        for _ in range(1 + rng.below(3)):
+            b, sure, _ = r_block(rng, prior, set(), set(), 0, [], 1 + rng.below(4), forms)
+            prior |= sure
+            chunks.append(b)
+        cases.append(repl_case(chunks, "repl-chunks/random"))
+    return cases
+
+
 def random_items(rng, names, n_items, allow_defs, idx):
     items = []
     for _ in range(n_items):
@@ -450,6 +685,8 @@ def random_items(rng, names, n_items, allow_defs, idx):
         elif r < 65:
             e = ("lit", rng.below(9)) if rng.chance(2, 3) else ("var", rng.choice(KEYS + names))
             items.append(("assign", rng.choice(KEYS + ([rng.choice(names)] if rng.chance(1, 4) else [])), e))
+        elif r < 70:
+            items.append(("aop", rng.choice(KEYS + ([rng.choice(names)] if rng.chance(1, 6) else [])), ("lit", 1 + rng.below(5))))
         elif r < 80:
             items.append(("show", ("var", rng.choice(KEYS + names))))
         elif r < 85:
@@ -584,6 +821,7 @@ def gen_cases(tier, seed):
     cases += structured_cases(rng)
     cases += scripted_cases()
     cases += raw_cases()
+    cases += repl_cases(rng, 150 if tier == "quick" else 3000)
     be = bounded_cases()
     if tier == "quick":
         be = [be[i] for i in range(seed % 8, len(be), 8)]
@@ -753,6 +991,20 @@ def d_predicates(case, impl_runs):
             if ist.get("guard"):
                 fails.append(f"D2 run {ri} step {si}: the top level of one module was executed more than 40 times within "
                              f"one host script (unbounded nested re-execution stopped by the harness guard)")
+            rp = meta.get("repl")
+            if rp is not None:
+                want = rp[si]
+                have = dict(kv.split("=", 1) for kv in ist["exports"][2:-1].split(",") if "=" in kv)
+                if ist["r"] != 0:
+                    fails.append(f"D8 run {ri} chunk {si}: the chunk failed with class {ist['r']}: {ist.get('msg', '')[:120]}")
+                for x in RTOP + RFN + ["f"]:
+                    w = want["exports"].get(x)
+                    w = None if w is None else ("?" if w == "?" else f"i{w}")
+                    if have.get(x) != w:
+                        fails.append(f"D8 run {ri} chunk {si}: with export_top_level_ids the exports map should hold "
+                                     f"{x} = {w} (final value of the top-level id; None = absent) but holds {have.get(x)}")
+                if want["out"] is not None and ist["out"] != want["out"]:
+                    fails.append(f"D8 run {ri} chunk {si}: the next chunk reads {ist['out']}, expected {want['out']}")
             exp = meta.get("expect")
             if exp is not None and exp[ri][si] is not None and ist["r"] != exp[ri][si]:
                 fails.append(f"D2 run {ri} step {si}: expected outcome class {exp[ri][si]} "
@@ -805,7 +1057,7 @@ def d_predicates(case, impl_runs):
                         fails.append(f"D2 run {ri} step {si}: {path_str(target)} lies on an import cycle but it loaded")
             # D6: a script that exports nothing itself (no export_top_level_ids, no `export`) leaves the host's
             #     exports map as it was -- whether its imports succeeded or failed
-            if not force and all(it[0] in ("imp", "from", "all", "try", "show", "mark", "fail") for it in body):
+            if not force and all(it[0] in ("imp", "from", "all", "try", "show", "mark", "fail", "aop") for it in body):
                 if ist["exports"] != prev_exports:
                     fails.append(f"D6 run {ri} step {si}: the script exports nothing, but the host's exports changed from "
                                  f"{prev_exports} to {ist['exports']}")
@@ -861,7 +1113,7 @@ def on_plain_cycle(files, start):
 # ---------------------------------------------------------------------------
 
 def nontrivial(case):
-    return len(case[1]) >= 2
+    return len(case[1]) >= 2 or bool(case[3].get("repl"))
 
 
 def known_classes(case):
@@ -1040,7 +1292,10 @@ def run(tier, seed):
              "runtime/test/@main/missing/compile error x catch at top level / one level down, compile errors, "
              "shadowing, wildcard order) under every (sampled) import order x run_import_tests x "
              "export_top_level_ids + bounded-exhaustive two-module graphs over a 7-item menu + raw-source families (catch inside a function / @main / @test called during the "
-             "import; D-predicates only) + seeded random graphs/histories; a harness process that dies or hangs is attributed "
+             "import; D-predicates only) + repl-mode chunks (1-3 chunks compiled with "
+             "export_top_level_ids on one runtime from plain / compound / multi / unpack assignments, assignments inside "
+             "top-level if / match / for, function-local assignments; exports compared with a reference interpreter after "
+             "every chunk and read back by a following chunk) + seeded random graphs/histories; a harness process that dies or hangs is attributed "
              "to its case and reported as an input violation; non-trivial = at least two module files",
         explanation="theorems over the run_import model for all graphs and histories; exact model-vs-implementation equality of "
                     "per-step error class / stdout / exports; C18's clauses evaluated directly on the implementation's output",
